@@ -1,1 +1,12 @@
 import Abmarl.Props.C01
+#print axioms Abmarl.C01_managers_honour_done_protocol
+#print axioms Abmarl.C01_stub
+#print axioms Abmarl.specLoop_at
+#print axioms Abmarl.c01_keys_agree
+#print axioms Abmarl.c01_never_reports_done_agent
+#print axioms Abmarl.c01_rejects_before_step
+#print axioms Abmarl.c01_error_is_clean_rejection
+#print axioms Abmarl.c01_actions_reach_sim
+#print axioms Abmarl.c01_allDone_iff
+#print axioms Abmarl.c01_ledger
+#print axioms Abmarl.shuffle_perm
